@@ -95,8 +95,13 @@ inline bspline::Spline<T, o> mkSpline(const bspline::support::Grid<T> &g,
                                       const CoefM &cm) {
   std::vector<std::array<T, o + 1>> cs(cm.size());
   for (size_t j = 0; j < cm.size(); j++)
-    for (size_t k = 0; k <= o; k++)
+    for (size_t k = 0; k <= o; k++) {
       cs[j][k] = k < cm[j].size() ? mk<T>(cm[j][k]) : mk<T>(R(0));
+      // floating types: some of the zero coefficients are negative zeros (the
+      // same number for every oracle, a different bit pattern for the code)
+      if constexpr (!ST<T>::exact)
+        if (cs[j][k] == 0 && (j + 2 * k + start) % 3 == 0) cs[j][k] = -cs[j][k];
+    }
   return bspline::Spline<T, o>(bspline::support::Support<T>(g, start, end),
                                std::move(cs));
 }
